@@ -124,36 +124,34 @@ theorem readPdbCore_file (o o' : ReadOpts) (lines lines' : List (List Char))
             ({} : PState)).noErr =
          (((List.range lines'.length).zip lines').foldl (fun s (il : Nat × List Char) => stepLine o' s (il.1 + 1) il.2)
             ({} : PState)).noErr) :
-    (readPdbCore o lines).map (·.1) = (readPdbCore o' lines').map (·.1) := by
+    (readPdbCore o lines).1 = (readPdbCore o' lines').1 := by
   unfold readPdbCore
   simp only
   generalize (((List.range lines.length).zip lines).foldl (fun s (il : Nat × List Char) => stepLine o s (il.1 + 1) il.2)
     ({} : PState)) = s at h ⊢
   generalize (((List.range lines'.length).zip lines').foldl (fun s (il : Nat × List Char) => stepLine o' s (il.1 + 1) il.2)
     ({} : PState)) = s' at h ⊢
-  have hsaw : s.sawSeqres = s'.sawSeqres := by have := congrArg PState.sawSeqres h; exact this
   have hf : (flushModel s).noErr = (flushModel s').noErr := by rw [flushModel_noErr, flushModel_noErr, h]
-  rw [hsaw]
-  split
-  · rfl
-  · generalize flushModel s = t at hf ⊢
-    generalize flushModel s' = t' at hf ⊢
-    have h1 : t.models = t'.models := by have := congrArg PState.models hf; exact this
-    have h2 : t.dbrefs = t'.dbrefs := by have := congrArg PState.dbrefs hf; exact this
-    have h3 : t.scale = t'.scale := by have := congrArg PState.scale hf; exact this
-    have h4 : t.origx = t'.origx := by have := congrArg PState.origx hf; exact this
-    have h5 : t.mtrix = t'.mtrix := by have := congrArg PState.mtrix hf; exact this
-    have h6 : t.modifications = t'.modifications := by have := congrArg PState.modifications hf; exact this
-    have h7 : t.bonds = t'.bonds := by have := congrArg PState.bonds hf; exact this
-    have h8 : t.info = t'.info := by have := congrArg PState.info hf; exact this
-    have h9 : t.exact = t'.exact := by have := congrArg PState.exact hf; exact this
-    simp only [Option.map, h1, h2, h3, h4, h5, h6, h7, h8, h9]
+  generalize flushModel s = t at hf ⊢
+  generalize flushModel s' = t' at hf ⊢
+  have h1 : t.models = t'.models := by have := congrArg PState.models hf; exact this
+  have h2 : t.dbrefs = t'.dbrefs := by have := congrArg PState.dbrefs hf; exact this
+  have h3 : t.scale = t'.scale := by have := congrArg PState.scale hf; exact this
+  have h4 : t.origx = t'.origx := by have := congrArg PState.origx hf; exact this
+  have h5 : t.mtrix = t'.mtrix := by have := congrArg PState.mtrix hf; exact this
+  have h6 : t.modifications = t'.modifications := by have := congrArg PState.modifications hf; exact this
+  have h7 : t.bonds = t'.bonds := by have := congrArg PState.bonds hf; exact this
+  have h8 : t.info = t'.info := by have := congrArg PState.info hf; exact this
+  have h9 : t.exact = t'.exact := by have := congrArg PState.exact hf; exact this
+  have h10 : t.seqres = t'.seqres := by have := congrArg PState.seqres hf; exact this
+  have h11 : t.seqresLines = t'.seqresLines := by have := congrArg PState.seqresLines hf; exact this
+  simp only [h1, h2, h3, h4, h5, h6, h7, h8, h9, h10, h11]
 
 /-- **discard-hydrogens is a pure filter** (PDB reader): the structure read with the option set is the structure
 read without it from the text whose hydrogen records are blanked out; in particular whether the input is
-within the modelled subset, the hierarchy, every atom, the metadata and the bonds agree -/
+the hierarchy, every atom, the metadata and the bonds agree -/
 theorem C15_pdb_discard_hydrogens (o : ReadOpts) (lines : List (List Char)) :
-    (readPdbCore (withH o true) lines).map (·.1) = (readPdbCore (withH o false) (blankH o lines)).map (·.1) := by
+    (readPdbCore (withH o true) lines).1 = (readPdbCore (withH o false) (blankH o lines)).1 := by
   apply readPdbCore_file
   rw [blankH_length]
   have hz : (List.range lines.length).zip (blankH o lines) =
@@ -167,7 +165,7 @@ theorem C15_pdb_discard_hydrogens (o : ReadOpts) (lines : List (List Char)) :
 /-- a text without hydrogen records is read the same with and without the option -/
 theorem C15_pdb_discard_nothing_to_discard (o : ReadOpts) (lines : List (List Char))
     (h : ∀ il ∈ (List.range lines.length).zip lines, isHLine o (il.1 + 1) il.2 = false) :
-    (readPdbCore (withH o true) lines).map (·.1) = (readPdbCore (withH o false) lines).map (·.1) := by
+    (readPdbCore (withH o true) lines).1 = (readPdbCore (withH o false) lines).1 := by
   rw [C15_pdb_discard_hydrogens]
   congr 2
   unfold blankH
